@@ -1210,3 +1210,7 @@ func TestC05(t *testing.T) {
 	vh.Drive(t, vh.Spec[WRCase]{Name: "write-read", Quick: 80000, Thorough: 2400000, Gen: genWR, Run: runWR})
 	vh.Drive(t, vh.Spec[RWCase]{Name: "read-write", Quick: 100000, Thorough: 3000000, Gen: genRW, Run: runRW})
 }
+
+func FuzzC05ReadWrite(f *testing.F) {
+	vh.Fuzz(f, vh.Spec[RWCase]{Name: "read-write", Gen: genRW, Run: runRW})
+}
